@@ -24,7 +24,20 @@ class SimAbort(BaseException):
 
 
 class SimUnsupported(Exception):
-    """The code under test used an API the model does not cover (=> INCONCLUSIVE, never a verdict)."""
+    """The code under test used an API the model does not cover (=> INCONCLUSIVE, never a verdict).
+
+    Wherever it is raised - in the parent, a worker or a helper thread, caught by the code under test or
+    not - the fact is recorded in the running world, so that the run can never end with a verdict."""
+
+    def __init__(self, *args):
+        super().__init__(*args)
+        try:
+            from . import simmp
+
+            if simmp.WORLD is not None and not getattr(simmp.WORLD, "unsupported_seen", None):
+                simmp.WORLD.unsupported_seen = str(self)
+        except Exception:
+            pass
 
 
 class HarnessError(Exception):
